@@ -1,6 +1,6 @@
 (* Extraction of the instrumented run that evaluates the side conditions of the C03 commutation
    theorems (RuntimeFootprint.v) at every configuration it visits. *)
 Require Import Coq.extraction.Extraction Coq.extraction.ExtrOcamlBasic Coq.extraction.ExtrOcamlString.
-Require Import Grits.Base Grits.Expand Grits.Dump Grits.Tc Grits.TcTop Grits.Runtime Grits.RuntimeFootprint Grits.proofs.RtStaticCheck Grits.proofs.InitLinear Grits.proofs.RtTcSyn Grits.proofs.LinBridge Grits.proofs.InitAccept Grits.proofs.InvAll Grits.proofs.DeterminismAll Grits.proofs.DeterminismNP.
+Require Import Grits.Base Grits.Expand Grits.Dump Grits.Tc Grits.TcTop Grits.Runtime Grits.RuntimeFootprint Grits.proofs.RtStaticCheck Grits.proofs.InitLinear Grits.proofs.RtTcSyn Grits.proofs.LinBridge Grits.proofs.InitAccept Grits.proofs.InvAll Grits.proofs.DeterminismAll Grits.proofs.DeterminismNP Grits.proofs.DeterminismNPCfree.
 Extraction Language OCaml.
-Extraction "model_compat.ml" parse_string typecheck init_config exec_check bad_pairs fj_cfg_b fj_funs_b in_fragment_b init_linear_b core_src_b all_src_b np_src_b.
+Extraction "model_compat.ml" parse_string typecheck init_config exec_check bad_pairs fj_cfg_b fj_funs_b in_fragment_b init_linear_b core_src_b all_src_b np_src_b cfree_src_b.
